@@ -98,6 +98,7 @@ class StubRustIter:
     def __exit__(self, *a):
         self.can_iterate = False
         self.exited += 1
+        self.released = True  # the native object drops its iterator from the static table on exit
 
     def _gen(self):
         for f in self.files:
@@ -118,6 +119,9 @@ class StubRustIter:
     def __next__(self):
         if not self.can_iterate:
             raise StopIteration
+        if getattr(self, "released", False):
+            # the real extension panics: "The static_index was not found among the STATIC_ITERATORS."
+            raise RuntimeError("native iterator used after it was released (__exit__)")
         if self._it is None:
             self._it = self._gen()
         return next(self._it)
